@@ -25,6 +25,9 @@ def lib_material(mat, cache=True):
         return 'mirror'
     if k == 'ideal':
         return IdealMaterial(n=float(mat['n']), k=float(mat.get('k', 0.0)))
+    if k == 'abbe':
+        from optiland.materials import AbbeMaterial
+        return AbbeMaterial(float(mat['n']), float(mat['v']))
     if k == 'glass':
         if not cache:
             return quiet(Material, mat['name'])
@@ -62,6 +65,9 @@ def surface_kwargs(s):
             kw[key] = s[key]
     if s.get('ap'):
         kw['aperture'] = RadialAperture(r_max=s['ap']['r_max'], r_min=s['ap'].get('r_min', 0.0))
+    if s.get('bsdf'):
+        from optiland.scatter import LambertianBSDF, GaussianBSDF
+        kw['bsdf'] = LambertianBSDF() if s['bsdf'] == 'lambertian' else GaussianBSDF(sigma=float(s['bsdf']))
     if s.get('coat'):
         if s['coat'] == 'fresnel':
             kw['coating'] = 'fresnel'
